@@ -14,17 +14,17 @@ ID = "C08"
 RULE = ("Hypothesis-generated building programs (8-30 calls, both flavours, connected and unconnected elements, "
         "sub-interfaces, peered services, substrate links with 2-3 ends); in the final state every applicable removal "
         "operation (remove node/component/storage/facility/switch/link/service/node-level service/interface/"
-        "sub-interface, disconnect, unpeer, prune per state; up to 3 targets per kind) is executed on its own copy "
+        "sub-interface, disconnect, unpeer, prune per state; up to 2 targets per kind) is executed on its own copy "
         "and compared with the predicted post-state: nodes = pre - (owned + peering artefacts), survivors keep "
         "identical properties, edges among survivors unchanged, operation handles agree with fresh handles. "
         "Non-trivial: some removed element owns >=1 connected interface. Distinct by hash of the case.")
 ASSUMPTIONS = ["ownership and artefact rules are my reading of the statement (DESIGN.md §C08): a 2-ended link dies with "
                "either end, a link keeping >=2 ends stays; a ServicePort dies with its peering link",
-               "state copies are made by serialize+load (C01 checks that round trip separately)",
+               "state copies are made by replaying the program (uuid4 is a counter, so ids repeat exactly)",
                "remove_link is only applied to links created by add_link"]
-BUDGET = {"quick": 600, "thorough": 15000}
+BUDGET = {"quick": 220, "thorough": 8000}
 MIN_LABEL_FRACTION = {"nontrivial": 0.3, "substrate": 0.12}
-MAX_PER_KIND = 3
+MAX_PER_KIND = 2
 
 
 def _exclusions():
@@ -45,7 +45,7 @@ def _case(draw, tier):
     flavour = draw(st.sampled_from(["experiment", "experiment", "substrate"]))
     w = {"connect": 10, "add_child": 7, "peer": 4, "add_service": 10, "validate": 0, "serialize_load": 0, "prune": 0,
          "unset_prop": 0, "rename": 1}
-    prog = draw(topo.program(flavour, max_ops=30, removals=False, weights=w, min_ops=8))
+    prog = draw(topo.program(flavour, max_ops=22, removals=False, weights=w, min_ops=8))
     return {"flavour": flavour, "prog": prog}
 
 
@@ -121,7 +121,9 @@ def candidates(it, s):
                         dis.append((svc, p, sp))
     dis.sort()
     for k in upto(len(dis)):
-        out.append(({"op": "disconnect", "k": k, "h": k % 2}, [dis[k][2]]))
+        # through the handle returned when the service was created (possibly stale) and through a fresh one
+        out.append(({"op": "disconnect", "k": k, "h": 0}, [dis[k][2]]))
+        out.append(({"op": "disconnect", "k": k, "h": 1}, [dis[k][2]]))
     peering = it.peering(s)
     for k in upto(len(peering)):
         a, b = peering[k]
@@ -174,12 +176,27 @@ def run_case(case):
         kind = op["op"]
         it2 = topo.Interp(case["flavour"], exclude=case.get("exclude", EXCLUDE))
         try:
-            it2.topo.load(graph_string=text)
-            it2.made_links = set(made)
+            # the copy is made by REPLAYING the program (deterministic ids), not by serialize+load, so that the
+            # handles stored by the building calls - possibly stale by now - take part in the removal
+            for bop in case["prog"]:
+                it2.apply(bop)
             pre = it2.snap()
             if pre.canon() != s0.canon():
                 raise RuntimeError("harness: state copy differs from the original state")
             D = predict_deleted(pre, roots)
+            # clause 4 is about what the operation does to the handle it is performed through: a stored handle that
+            # was already out of date before the call (the element was changed through another handle) is not judged
+            stale_before = set()
+            for nid, hh in it2.handles.items():
+                if nid in pre.nodes and pre.cls(nid) in ("NetworkService", "ConnectionPoint"):
+                    try:
+                        have = sorted(i.node_id for i in hh.interface_list)
+                    except Exception:
+                        continue
+                    want0 = sorted(pre.cps_of_service(nid)) if pre.cls(nid) == "NetworkService" else \
+                        sorted(pre.children_cp(nid))
+                    if have != want0:
+                        stale_before.add(nid)
             r = it2.apply(op)
             for k, n in it2.excluded.items():
                 excluded[k] = excluded.get(k, 0) + n
@@ -237,6 +254,9 @@ def run_case(case):
             # clause 4: the handle(s) through which the operation was performed agree with a fresh lookup
             for h in [r["info"].get("handle")] + list(r["info"].get("handles") or []):
                 if h is None or h.node_id not in post.nodes:
+                    continue
+                if h.node_id in stale_before and h is it2.handles.get(h.node_id):
+                    labels.add("handle-stale-before-call")
                     continue
                 got = sorted(i.node_id for i in h.interface_list)
                 if post.cls(h.node_id) == "NetworkService":
